@@ -34,7 +34,7 @@ class Calls:
                      'is_none', 'hashable', 'callraises', 'call', 'fresh_obj', 'is_int_key', 'int_key', 'ite', 'attr',
                      'has_attr', 'catches', 'exc_is', 'iff', 'dynattr', 'truthy', 'key_at', 'idx_of', 'old', 'is_fresh',
                      'seq_of', 'card', 'same_elements', 'typeof', 'callv', 'callvraises', 'isinst_dyn', 'lt', 'unhashable_any',
-                     'mhas', 'mget', 'shas', 'without_key', 're_compile_raises', 're_compile', 'as_map', 'as_seq', 'as_set', 'sat', 'slen', 'mlen', 'methraises', 'methcall', 'gen_of', 'nth_where', 'count_where', 'ghost', 'zlen'}
+                     'mhas', 'mget', 'shas', 'without_key', 're_compile_raises', 're_compile', 'as_map', 'as_seq', 'as_set', 'sat', 'slen', 'mlen', 'methraises', 'methcall', 'gen_of', 'nth_where', 'count_where', 'ghost', 'zlen', 'isfinite'}
 
     # ------------------------------------------------------------------------------------
     def ev_Call(self, node, st):
@@ -114,7 +114,7 @@ class Calls:
         if g is not None:
             cr = g
         s_ok = st.fork().add(z3.Not(cr))
-        s_ex = st.fork().add(cr, ec != th.exc['BaseException'])
+        s_ex = st.fork().add(cr)
         return [(VVal(res, fresh=True), s_ok), (Raised(VExc(ec, ev, f'call:{self.src(node.func)}')), s_ex)]
 
     # ------------------------------------------------------------------------------------
@@ -175,7 +175,7 @@ class Calls:
             if total:
                 return [(resv, s2)]
             s_ok = s2.fork().add(z3.Not(cr))
-            s_ex = s2.fork().add(cr, ec != th.exc['BaseException'])
+            s_ex = s2.fork().add(cr)
             return [(resv, s_ok), (Raised(VExc(ec, ev, origin)), s_ex)]
         # lazily produced arguments (generators) may raise while the callee consumes them
         gens = [x for x in args if isinstance(x, VGen)]
@@ -348,9 +348,15 @@ class Calls:
             pnames.append(f.node.args.vararg.arg)
         if f.node.args.kwarg is not None:
             pnames.append(f.node.args.kwarg.arg)
-        argv = [self.toVal(env[p], st) for p in pnames]
+        argv = [self.toVal(env[p], st) for p in pnames] if not con.result_opaque else []
         name = san_key(con.key)
-        res_t = th.fn('ret_' + name, *([th.Val] * len(argv)), th.Val)(*argv) if argv else th.const('ret0:' + name)
+        if con.result_opaque:
+            argv = []
+            res_t = th.fresh('ret_' + name)
+            if con.result_kind == 'str':
+                st.add(th.isc('str')(res_t))
+        else:
+            res_t = th.fn('ret_' + name, *([th.Val] * len(argv)), th.Val)(*argv) if argv else th.const('ret0:' + name)
         result = VVal(res_t, fresh=con.result_fresh, kind=con.result_kind)
         penv = {p: self.respec(env[p], st) for p in pnames}
         origin = f'call:{con.key}'
@@ -570,7 +576,7 @@ class Calls:
             vals = ok_alts[-1][1]
             for c, v, _ in reversed(ok_alts[:-1]):
                 vals = [z3.If(c, a, b) for a, b in zip(v, vals)]
-            elt_sv = ok_alts[0][2] if len(ok_alts) == 1 else None
+            elt_sv = (ok_alts[0][2][0] if len(ok_alts[0][2]) == 1 else VTuple(tuple(ok_alts[0][2]))) if len(ok_alts) == 1 else None
             g = VGen(n=it.n, idx=i, ok=ok, val=vals[0] if len(vals) == 1 else tuple(vals), excs=tuple(exc_alts), keep=keepf,
                      facts=tuple(gen_facts))
             object.__setattr__(g, '_elt_sv', elt_sv)
@@ -686,9 +692,10 @@ class Calls:
                     s.add(z3.ForAll([j], z3.Implies(z3.And(j >= 0, j < gg.n, self.gen_at(gg, gg.keep, j)),
                                                     z3.And(inv(j) >= 0, inv(j) < th.vlen(r), pos(inv(j)) == j))))
                     return [(VVal(r, fresh=True, kind='seq'), s)]
-                arr = z3.Lambda([i], z3.If(rng, gg.val, th.dflt))
-                t = (th.mk_list if target == 'list' else th.mk_tuple)(arr, gg.n)
-                s.add(th.vlen(t) == gg.n, th.sq_arr(t) == arr, th.isc(target)(t), t != th.NoneV, th.truthy(t) == (gg.n > 0))
+                # (no z3 lambda here: a fresh array constrained pointwise keeps the query in the decidable array fragment)
+                t = th.fresh('built_' + target)
+                s.add(th.vlen(t) == gg.n, th.isc(target)(t), t != th.NoneV, th.truthy(t) == (gg.n > 0),
+                      z3.ForAll([i], z3.Implies(rng, z3.Select(th.sq_arr(t), i) == gg.val)))
                 return [(VVal(t, fresh=True, kind='seq'), s)]
             kk = z3.Const('k!m', th.Val)
             keep = gg.keep if gg.keep is not None else z3.BoolVal(True)
